@@ -144,7 +144,8 @@ def check_preemph(case):
         tol = (1e-12 if dt == np.float64 else 1e-5) * max(1.0, float(np.max(np.abs(ref))))
         d = float(np.max(np.abs(out.astype(np.float64) - ref.astype(np.float64))))
         require(d <= tol, "PyTorchPreemphasize differs from Preemphasize.apply by {!r} (coeff {!r}, n={})", d, case["coeff"], len(x))
-    return {"nontrivial": len(x) >= 2, "labels": ["prec=" + case["prec"], "n=%s" % ("0" if len(x) == 0 else "1" if len(x) == 1 else ">=2")]}
+    return {"nontrivial": len(x) >= 2, "labels": ["prec=" + case["prec"], "n=%s" % ("0" if len(x) == 0 else "1" if len(x) == 1 else "2..64" if len(x) <= 64 else
+                                                                                   "65..5000" if len(x) <= 5000 else ">32767")]}
 
 
 def _post(spec):
@@ -255,6 +256,10 @@ def _stft_cases(draw):
     n = draw(st.one_of(st.integers(L, 5 * L + 3), st.integers(0, L // 2), st.sampled_from([L, L + 1, 2 * L, 0, L // 2])))
     if draw(st.integers(0, 24)) == 0:
         n = draw(st.sampled_from([4097, 10000, 16385]))
+    elif draw(st.integers(0, 3)) == 0:
+        # lengths on and next to the boundaries of the frame count: whole and half multiples of the shift
+        S = comp["S"]
+        n = max(L, draw(st.integers(0, 12)) * S + draw(st.sampled_from([0, S // 2, (S + 1) // 2])) + draw(st.sampled_from([-1, 0, 0, 1])))
     return {
         "prior_n": draw(st.one_of(st.none(), st.none(), st.integers(0, 4 * L))),
         "strided": draw(st.sampled_from([False, False, False, True])),
@@ -277,19 +282,22 @@ def clauses(tier):
                _stft_cases, quick=450, thorough=15000),
         Clause("preemphasize", check_preemph,
                "PyTorchPreemphasize vs Preemphasize.apply; non-trivial = >= 2 samples",
-               lambda: st.fixed_dictionaries({"sig": signal_specs(st.integers(0, 64)), "coeff": st.one_of(floats(-2, 2), st.just(0.97)),
+               lambda: st.fixed_dictionaries({"sig": signal_specs(st.one_of(st.integers(0, 64), st.integers(0, 64), st.integers(65, 5000),
+                                                                                 st.sampled_from([32768, 32769, 32770, 65537, 70001, 140000]))),
+                                              "coeff": st.one_of(floats(-2, 2), st.just(0.97)),
                                               "prec": st.sampled_from(["double", "single"]), "script": st.sampled_from([False, False, False, True])}),
-               quick=150, thorough=5000, shards=8),
+               quick=400, thorough=8000, shards=8),
         Clause("postprocessor_wrapper", check_post,
                "PyTorchPostProcessorWrapper vs PostProcessor.apply for deltas / stack / standardize; non-trivial = >= 2 frames",
-               lambda: st.fixed_dictionaries({"post": post_specs, "T": st.integers(2, 12), "F": st.integers(1, 5), "seed": st.integers(0, 2 ** 32 - 1),
+               lambda: st.fixed_dictionaries({"post": post_specs, "T": st.one_of(st.integers(2, 12), st.integers(2, 12), st.integers(13, 400)),
+                                              "F": st.one_of(st.integers(1, 5), st.integers(1, 5), st.integers(6, 41)), "seed": st.integers(0, 2 ** 32 - 1),
                                               "prec": st.sampled_from(["double", "single"])}),
-               quick=150, thorough=5000, shards=8),
+               quick=400, thorough=8000, shards=8),
         Clause("si_wrapper", check_si,
                "PyTorchSIFrameComputer vs compute_full on float32/float64 tensors; non-trivial = >= 1 frame and a signal of at least one DFT size",
                lambda: st.fixed_dictionaries({"comp": si_specs(), "sig": signal_specs(st.one_of(st.integers(0, 60), st.integers(100, 1500))),
                                               "prec": st.sampled_from(["double", "single"])}),
-               quick=80, thorough=3000, shards=8),
+               quick=200, thorough=5000, shards=8),
         Clause("dither", check_dither,
                "PyTorchDither: reproducible per seed, noise independent of the signal, identity at coeff 0, mean/std of 2e5 draws within 6 sigma; non-trivial = coeff > 0 and n >= 8",
                lambda: st.fixed_dictionaries({"coeff": st.one_of(st.just(0.0), st.just(1.0), floats(0.001, 100.0)),
